@@ -3,6 +3,7 @@ package props
 import (
 	"fmt"
 	"os"
+	"runtime"
 	"runtime/debug"
 	"strconv"
 	"strings"
@@ -11,6 +12,7 @@ import (
 	"github.com/aml-org/amf-custom-validator/pkg"
 	"github.com/aml-org/amf-custom-validator/pkg/config"
 	"github.com/open-policy-agent/opa/rego"
+	"verifharness/ev"
 )
 
 type fixedClock struct{ t time.Time }
@@ -107,4 +109,59 @@ func shardEnv() (int, int) {
 		return 1, 0
 	}
 	return shards, idx
+}
+
+// ---------------------------------------------------------------- termination
+
+// noReturnSecs is the bound after which a call on a small input counts as "does not return" (C17: every entry
+// point terminates). It is four orders of magnitude above what the same calls cost on the unchanged tree
+// (milliseconds); VERIF_NORETURN_SECS overrides it.
+func noReturnSecs() int {
+	if s := os.Getenv("VERIF_NORETURN_SECS"); s != "" {
+		if n, err := strconv.Atoi(s); err == nil && n > 0 {
+			return n
+		}
+	}
+	return 120
+}
+
+// returnsInTime runs f on its own goroutine. It reports false when f has not returned within the bound while a
+// control call (a trivial validation started after the bound expired) does return: the machine is making progress
+// and this call is not. When the control does not return either, or the process has grown beyond 8 GiB while
+// waiting, nothing can be concluded and the process ends as inconclusive. The runaway goroutine cannot be stopped,
+// so the caller must end the process after a false result.
+func returnsInTime[T any](id string, f func() T) (out T, ok bool) {
+	done := make(chan T, 1)
+	go func() { done <- f() }()
+	limit := time.After(time.Duration(noReturnSecs()) * time.Second)
+	tick := time.NewTicker(time.Second)
+	defer tick.Stop()
+	for {
+		select {
+		case out = <-done:
+			return out, true
+		case <-tick.C:
+			var ms runtime.MemStats
+			runtime.ReadMemStats(&ms)
+			if ms.Sys > 8<<30 {
+				ev.Inconclusive(id, "a call has not returned and the process grew to %d MiB", ms.Sys>>20)
+			}
+		case <-limit:
+			ctl := make(chan bool, 1)
+			go func() {
+				r := guard(func() (string, error) {
+					return pkg.Validate("profile: ctl\nvalidations: {}\n", "[]", false, nil)
+				})
+				ctl <- r.Panic == ""
+			}()
+			select {
+			case <-ctl:
+				return out, false
+			case out = <-done:
+				return out, true
+			case <-time.After(60 * time.Second):
+				ev.Inconclusive(id, "neither the call nor a trivial control call returned: the machine is stalled")
+			}
+		}
+	}
 }
